@@ -249,11 +249,11 @@ func (g *Gen) respell(label string) string {
 	for _, r := range label {
 		switch {
 		case r == ' ':
-			switch g.pick(6) {
-			case 0:
+			switch x := g.pick(6); {
+			case x == 0 && !g.NoTabs:
 				b.WriteString("\t")
 				g.St.add("label:tab")
-			case 1:
+			case x == 1 && !g.NoTabs:
 				b.WriteString(" \t ")
 				g.St.add("label:tab")
 			default:
